@@ -10,21 +10,42 @@ TRUSTED = [
     "Go harness harness/cmd/hC02 (corpus/query generators, AST printer) and harness/internal/fracbuild",
     "hand-written transcription props/C02/coq/ModelTx.v of the active index (TokenLIDs, mergeSorted, inverser, "
     "inverseLIDs, AppendIDs), tied to /repo by unit-level classes through frac/export_verif_c02.go and by scripts",
-    "the SEALED fraction's ID/LID blocks are modelled by their specification (position in the (MID,RID)-descending "
-    "order), not transcribed",
-    "leaf matching restricted to literal / prefix / suffix patterns on keyword fields (wildcards, ranges: C13)",
+    "hand-written transcription props/C02/coq/ModelSealed.v + SealedLids.v (copy of C03's LID-block model) of the SEALED "
+    "search path at the level of numbers: ID blocks with their minima and sealedIDsIndex.LessOrEqual, the dictionary in "
+    "(field, token) order, getLIDsBlockGenerator, Chunks.Pack/unpack on varint values, lids.Table, IteratorAsc/Desc; and "
+    "of the provider's clamp to Info.From/To + EmptyDataProvider. Outside the model: byte codecs (varint bytes, zstd), "
+    "token-table blocks and their loaders, caches, the _all_ / _exists_ tokens (TIDs of the model start at the first "
+    "user field)",
+    "the leaf matcher is ABSTRACT in every theorem (any function pat -> tok -> bool); the executable cases instantiate "
+    "it with glob semantics for Literals (text terms and stars), Go string order for text ranges and, for numeric "
+    "ranges, strconv.ParseFloat restricted to optionally signed decimal integers of <= 15 digits (the harness only "
+    "produces values and bounds on which the real ParseFloat agrees with that fragment); that the real pattern.Search "
+    "has glob semantics is C13's theorem, here it is tested through every search case",
+    "frac.VerifC02SmallCapSearch (export file) assembles a search index from real parts (active IDs index, real "
+    "getLIDsBlockGenerator with a small capacity, real Pack/unpack, lids.Table, sealedTokenIndex.GetLIDsFromTIDs, "
+    "pattern.Search, processor.IndexSearch) with ~40 lines of glue for the token lookup; consts.IDsPerBlock is a Go "
+    "constant, so ID blocks straddle only in corpora above 4096 documents (thorough tier)",
 ]
 ASSUME = [
-    "stored IDs pairwise distinct and MID >= 1 (MID 0 cannot be ingested: DocProvider.Append replaces it)",
+    "stored IDs pairwise distinct and MID >= 1 (MID 0 cannot be ingested: DocProvider.Append replaces it); MID, RID "
+    "within uint64; fewer than 2^32-1 documents and (sealed) fewer than 2^32-1 distinct tokens",
     "posting lists handed to the merge nodes are strictly ascending; NOT borders satisfy lo >= 1 in reverse "
     "order and hi+1 < 2^32 (guaranteed by getLIDsBorders: minLID >= 1, maxLID < Len())",
     "one fraction per search (the cross-fraction merge of seq.MergeQPRs belongs to C16/C19)",
+    "C02_clamp_irrelevant: Info.From <= every stored MID <= Info.To (what NewInfo + UpdateStats give once the appends "
+    "are acknowledged: C17/C14; while a bulk is in flight Info may lag and the clamp then deliberately hides the "
+    "not-yet-acknowledged documents)",
 ]
 RULE = ("random trees of real merge nodes (AND/OR/NAND/NOT, depth <= 4, both directions) over shaped static "
-        "posting lists; BuildORTree over 0-9 lists; real TokenLIDs under scripted PutLIDsInQueue/GetLIDs (duplicate LIDs inside and across batches, equal (MID,RID), puts after gets); real inverser + inverseLIDs on random mappings; active fractions <= 100 docs as scripts of bulks and searches replayed by the transcribed model; random corpora (1-40 docs, a few of 300-1500 (quick) / 1000-3000 plus two sealed ones above 4096 IDs (thorough), equal "
+        "posting lists; BuildORTree over 0-9 lists; real TokenLIDs under scripted PutLIDsInQueue/GetLIDs (duplicate LIDs inside and across batches, equal (MID,RID), puts after gets); real inverser + inverseLIDs on random mappings; active fractions <= 100 docs as scripts of bulks and searches replayed by the transcribed model; random corpora (1-40 docs, a few of 300-1500 (quick: 300-900) / 1000-3000 plus two sealed ones above 4096 IDs (thorough), equal "
         "MIDs, extreme RIDs, documents carrying the same token 2-3 times, 1-4 out-of-order bulks with a checked search between bulks on all tokens / on the tokens of the next bulk) in real active / sealed / "
-        "sealed-and-reloaded fractions, 8-12 requests each (boolean trees with NOT at any depth over literal, "
-        "prefix, suffix leaves; [from,to] around the stored MIDs incl. 0 and 2^64-1 and from>to; both orders; "
+        "sealed-and-reloaded fractions and (every 4th small corpus) the sealed LID path rebuilt by the real block generator "
+        "with capacity 1-16 (continued blocks, blocks shared by tokens, field ends), 8-12 requests each (boolean trees with "
+        "NOT at any depth over literal, prefix, suffix leaves and, in 2/3 of the corpora, the full leaf language: wildcards "
+        "with 0-3 stars incl. middles, `*`/`**` alone, prefix*suffix overlapping in the value they were cut from, numeric / "
+        "text / mixed ranges with open, closed, unbounded and empty-string ends, in-lists of literals and patterns, NOT "
+        "over each, over values incl. numbers, number-like text and `-`; [from,to] around the stored MIDs incl. 0 and "
+        "2^64-1, from>to, partly and wholly outside Info.From/To (counted as timerange:*); both orders; "
         "limits 0, 1, n, >n; with/without total; histogram intervals 1..2^40); getLIDsBorders on the same fractions. non-trivial = node tree "
         "with an operator and non-empty output / corpus with a non-empty answer to a query with an operator / "
         "border interval that is non-empty and not everything; distinct by input")
